@@ -425,7 +425,8 @@ class Ctx:
             init = self.I.class_lookup(c, "__init__")
             if isinstance(init, FuncVal):
                 self.I.call_func(init, [o] + list(args), kwargs, force_body=True)
-            return o
+                return o
+            return self.I.instantiate(c, list(args), kwargs)         # generated constructors (dataclasses), classes without __init__
         return self._run(thunk)
 
     def method(self, obj, name, *args, **kwargs):
